@@ -25,11 +25,16 @@ every output of `Distribute(HashClassifier(chunks), s)` delivers, by increasing 
 
 `chunk <mem|disk> c=<chunks> b=<input batch size> s=<CLIBatchSize> <rec> …` → `K <n> <code>:<ids> …`: the chunks
 `ISequenceChunk` (by increasing code: the code pushes them in map order) / `ISequenceChunkOnDisk` (in the order they
-are pushed = lexical order of the file names) deliver.  `chunk diskfail …` → `err` (no temporary directory).
+are pushed = lexical order of the file names; the ids of a chunk sorted: `Load` leaves them in arrival order of the
+reader's batches) deliver.  `chunk diskfail …` → `err` (no temporary directory).
 
 `pipe c=<chunks> w=<workers> sched=<n,n,…|-> ns= na= cats= stats= <rec> …` → `U …`: the small-step model of the
 goroutines of `IUniqueSequence` (`Model/UniqSteps.lean`) run under the schedule `sched` (which worker / pusher moves
 next; exhausted schedule: round robin), result of the merge stage.
+
+`idem s=<k> <mem|disk> c= w= b= ns=0 na= cats= stats= dm=* <rec> …` → `U …` of `uniq (uniq xs ++ ys)` where `xs` = the first
+`k` records (an already dereplicated data set merged again with new records), ` NOT-IDEMPOTENT` appended when it differs
+from `uniq (xs ++ ys)`.
 
 `big …`: large generated inputs, see `bigRun`.
 -/
@@ -238,8 +243,9 @@ def run (line : String) : String :=
       if mode = "mem" then
         pure (showK ((chunkMem (hashRec chunks) size batches).mergeSort (fun a b => decide (a.1 ≤ b.1))))
       else if mode = "disk" ∨ mode = "diskfail" then
-        match chunkDisk idLayer (mode = "disk") (hashRec chunks) size batches with
-        | .ok cs => pure (showK cs)
+        match chunkDisk idLayer id (mode = "disk") (hashRec chunks) size batches with
+        | .ok cs => pure (joinSp ("K" :: toString cs.length :: cs.map fun e =>
+            s!"{e.1}:{showList (sortS (e.2.map fun r => hexS r.id))}"))
         | .error e => pure e
       else none
     r.getD "bad-op"
@@ -262,6 +268,27 @@ def run (line : String) : String :=
       let s1 := showRecs "U" stats (uniqCRC chunks o input)
       let s2 := showRecs "U" stats (Pipe.result o fin)
       pure (if Pipe.final fin ∧ s1 = s2 then s2 else s2 ++ " PIPE-DIFFERS")
+    r.getD "bad-op"
+  | "idem" :: sp :: mode :: c :: w :: b :: ns :: na :: cats :: stats :: _dm :: recs =>
+    -- already dereplicated input merged again: uniq (uniq xs ++ ys), xs = the first `sp` records; `NOT-IDEMPOTENT`
+    -- when it differs (observably) from uniq (xs ++ ys)
+    let r : Option String := do
+      let sp ← (← field "s=" sp).toNat?
+      if mode ≠ "mem" ∧ mode ≠ "disk" then none
+      let chunks ← (← field "c=" c).toNat?
+      let _ ← (← field "w=" w).toNat?
+      let _ ← (← field "b=" b).toNat?
+      let ns ← (← field "ns=" ns).toNat?
+      let na ← unhexS (← field "na=" na)
+      let cats ← listOf (← field "cats=" cats)
+      let stats ← listOf (← field "stats=" stats)
+      let input ← recs.mapM parseRec
+      if chunks = 0 ∨ ns ≠ 0 then none
+      if ¬ stats.Nodup then none
+      let o : Opts := { cats := cats, stats := stats, na := na, noSingleton := false }
+      let r2 := showRecs "U" stats (uniqCRC chunks o (uniqCRC chunks o (input.take sp) ++ input.drop sp))
+      let r1 := showRecs "U" stats (uniqCRC chunks o input)
+      pure (if r1 = r2 then r2 else r2 ++ " NOT-IDEMPOTENT")
     r.getD "bad-op"
   | "big" :: rest => bigRun rest
   | _ => "bad-op"
